@@ -37,8 +37,9 @@ def write_replay(ctx, v, n):
     d = os.path.join(ROOT, "replays")
     os.makedirs(d, exist_ok=True)
     p = os.path.join(d, f"{ctx.pid}-{ctx.seed}-{n}.json")
-    json.dump(dict(property=ctx.pid, seed=ctx.seed, tier=ctx.tier, what=v["what"], **v["replay"]),
-              open(p, "w"), indent=1)
+    obj = dict(property=ctx.pid, check_seed=ctx.seed, tier=ctx.tier, what=v["what"])
+    obj.update(v["replay"])
+    json.dump(obj, open(p, "w"), indent=1)
     return p
 
 
